@@ -269,7 +269,7 @@ func (g *opGen) selection(typeName string, depth int) string {
 			// a response key across fragments; everything else gets a key of its own. Below a field
 			// that can be merged, shared keys are off (two different fields of one parent type must
 			// not end up under one key).
-			if g.s.safeName(f.Name) && W.Prob(0.5) {
+			if g.s.safeName(f.Name) && (tt == nil || g.s.SharedKeysInOps) && W.Prob(0.5) {
 				merged = true
 			} else if k := sharedKey(f.Type); tt != nil && g.s.SharedKeysInOps && g.sharedFree(typeName, k, f.Name) && W.Prob(0.4) {
 				alias = k + ": "
